@@ -883,7 +883,7 @@ class ModelHist(Engine):
             ops.append(op)
 
         nclones = rs.choice([1, 1, 2, 3])
-        nops = ro.randint(12, 45)
+        nops = ro.randint(12, 45) * (stream(seed, "size").choice([1, 1, 1, 2, 3]) if tier == "thorough" else 1)
         clone_at = sorted(rs.sample(range(len(ops) + 1, len(ops) + nops), min(nclones, nops - 1)))
         n_act = 0
         while len(ops) < nops + 5:
